@@ -106,6 +106,46 @@ def _split_lines(source: str):
     return lines
 
 
+def dedent_block(src: str):
+    """Dedent the source of a function defined in an indented block
+
+    The indentation of the first code line is removed from every line,
+    except from lines that continue a multi-line token (string literals)
+    and lines not having that indentation (comments at a lower column).
+    textwrap.dedent would alter the string literals, and gives up
+    when a line starts at a lower column.
+    """
+    import io
+    import tokenize
+
+    lines = src.split("\n")
+    margin = None
+    for line in lines:
+        stripped = line.lstrip()
+        if stripped and not stripped.startswith("#"):
+            margin = line[:len(line) - len(stripped)]
+            break
+    if not margin:
+        return src
+
+    inside = set()
+    try:
+        for tok in tokenize.generate_tokens(io.StringIO(src).readline):
+            if tok.start[0] < tok.end[0] and tok.type not in (
+                    tokenize.NEWLINE, tokenize.NL):
+                inside.update(range(tok.start[0] + 1, tok.end[0] + 1))
+    except (tokenize.TokenError, IndentationError, SyntaxError):
+        return src
+
+    for i, line in enumerate(lines):
+        if (i + 1) not in inside:
+            if line.startswith(margin):
+                lines[i] = line[len(margin):]
+            elif not line.strip():
+                lines[i] = ""
+    return "\n".join(lines)
+
+
 def is_funcdef(src: str):
     """True if src is a function definition
 
@@ -331,7 +371,7 @@ class Formula:
             src = extract_lambda_from_func(func)
             self._init_from_lambda(src, name)
         else:
-            self._init_from_funcdef(getsource(func), name)
+            self._init_from_funcdef(dedent_block(getsource(func)), name)
 
     def _init_from_source(self, src: str, name: str):
 
